@@ -78,3 +78,26 @@ def dispatch_scenario(rng: random.Random, *, family=None, with_invalid=True, sto
             "accepted": len(accepted), "invalid": n_invalid, "complete": len(accepted) == total,
             "filter_style": rng.choice(["callable", "enum", "str", "lazy"])}
     return Scenario(lines, meta)
+
+
+def exhaustive_small(kind: str):
+    """Exhaustive small scope (thorough tier, supporting evidence): EVERY instance with <= 2 jobs x <= 2 operations on 2
+    machines with durations in {0, 1, 2} (single-machine operations), EVERY complete interleaving of its jobs, probed
+    after every dispatch with the lines the property's oracle judges.  `kind` selects the probes."""
+    probes = {
+        "snap": ["snap", "q is_complete"],
+        "queries": ["q " + q for q in QUERIES0],
+        "time": ["q current_time", "q completed"],
+    }[kind]
+    for jobs in gen.all_small_instances():
+        for hist in gen.all_histories(jobs):
+            lines = ["new", instance_line(jobs), gen.filter_line(None)] + probes
+            idx = [0] * len(jobs)
+            for j in hist:
+                lines.append(f"disp {j} {idx[j]} {jobs[j][idx[j]][0][0]}")
+                idx[j] += 1
+                lines += probes
+            lines += ["q makespan", "q num_scheduled"]
+            yield Scenario(lines, {"family": "exhaustive_small", "filter": "none", "style": "exhaustive",
+                                   "flexible": False, "zero_dur": gen.has_zero(jobs), "accepted": len(hist),
+                                   "invalid": 0, "complete": True, "filter_style": "callable"})
